@@ -31,11 +31,13 @@ Records (whitespace tokens):
   drcp <kind> <obj> <lits> :: steps -> the proof file is a valid DRCP certificate (Check/DrcpCheck.lean)
   drcpw <step> :: <text>           -> the real writer's line equals the model's rendering and reads back
   drcpr ok <step>|err :: <text>    -> the real reader's verdict / result equals the model's
+  derive <k> (<atoms> none|<atom>)*k :: <atoms> -> the learned nogood follows by unit propagation from the recorded reasons (Check/Derive.lean)
   asg <n> op*n :: <observations>   -> every observable of the real domain store after every operation equals Model/Assignments
   valsel <name> x <n v*n> <atom>   -> the decision of a value selector is in the model's support
   panic|nonterm|partial|bad|branchviolation …   -> FAIL (harness-side observation of a failure)
 -/
 import Driver.Asg
+import Pumpkin.Check.Derive
 import Pumpkin.Model.Cumulative
 import Pumpkin.Spec.Basic
 import Pumpkin.Check.Oracle
@@ -282,6 +284,24 @@ def respond (st : St) (line : String) : St × Option String :=
       let st' := setModel m
       (st', some s!"model nvars={m.doms.length} nprod={(product m.doms).length} nsol={st'.sols.length}")
     | _ => (st, some "FAIL model unparsed")
+  | "derive" :: n :: rest =>
+    -- `derive <k> (<atoms:premises> none|<atom>)*k :: <atoms:nogood>`
+    (match n.toNat? with
+     | none => (st, some "FAIL derive unparsed")
+     | some k =>
+       let pImpl : P Pumpkin.Derive.Impl := fun ts => do
+         let (prem, ts) ← pList pAtom ts
+         match ts with
+         | "none" :: ts => pure ((prem, none), ts)
+         | ts => do let (q, ts) ← pAtom ts; pure ((prem, some q), ts)
+       match pRep pImpl k rest with
+       | some (g, "::" :: rest) =>
+         (match pList pAtom rest with
+          | some (ng, []) =>
+            if Pumpkin.Derive.derivable st.model.doms g ng then (st, some s!"ok derive clauses={g.length} size={ng.length}")
+            else (st, some s!"FAIL derive CORR not-derivable nogood={repr ng} clauses={g.length}")
+          | _ => (st, some "FAIL derive unparsed"))
+       | _ => (st, some "FAIL derive unparsed"))
   | "cumopts" :: rest =>
     ({ st with cumHoles := rest.map (· == "1") }, some "ok cumopts")
   | ["litdefs", n] =>
